@@ -190,7 +190,8 @@ def s2c_clause(prop: str, rec: dict, o: dict, first: Optional[dict]) -> Optional
 
 # ------------------------------------------------------------------------------------------ the check driver
 def signature(rec: dict, o: dict, clause: str) -> dict:
-    return {"clause": clause, "entry": ENTRY_KIND[o["entry"]], "cmd": rec["cmd"], "feu": rec["feu"], "usage": rec.get("usage", "none"),
+    return {"clause": clause, "entry": ENTRY_KIND[o["entry"]], "cmd": rec["cmd"], "feu": rec["feu"], "usage": rec.get("usage", "none"), "vlimit": rec.get("vlimit", 0),
+            "vlimit": rec.get("vlimit", 0),
             "shape": shape(rec), "limkind": rec["limkind"], "cfg": f"{rec['cfgsrc']}/{rec['cfgitem']}",
             "runaway": rec["runaway"], "predicted": bool(rec.get("diff")) and predicted(rec, o),
             "exc": (o["exc"] or "").split(":")[0]}
